@@ -86,20 +86,22 @@ func c14provHash(r *vfRand) mh.Multihash {
 }
 
 type c14provCase struct {
-	ctor      string
-	interval  time.Duration // reprovide interval; 0 = no schedule
-	ownKs     bool
-	ownDs     bool
-	npeers    int
-	k         int
-	failPct   int
-	workers   [3]int // max, periodic, burst
-	noAddrs   bool
-	ops       []string
-	closeAt   int
-	conc2     bool
-	strat     int
-	warmSteps int // calls released before the operations start (the node comes online)
+	ctor       string
+	interval   time.Duration // reprovide interval; 0 = no schedule
+	ownKs      bool
+	ownDs      bool
+	npeers     int
+	k          int
+	failPct    int
+	workers    [3]int // max, periodic, burst
+	noAddrs    bool
+	ops        []string
+	closeAt    int
+	closeOp1   int // >0: Close follows the start of operation closeOp1-1 by closeDelay steps
+	closeDelay int
+	conc2      bool
+	strat      int
+	warmSteps  int // calls released before the operations start (the node comes online)
 }
 
 func c14provRun(r *vfRand, c *c14provCase, tr *zzc14.Trace) (*zzc14.Plan, string) {
@@ -176,7 +178,7 @@ func c14provRun(r *vfRand, c *c14provCase, tr *zzc14.Trace) (*zzc14.Plan, string
 		return nil, "constructor panicked"
 	}
 	tr.Ctor(err == nil)
-	plan := &zzc14.Plan{Gate: gate, CloseAt: c.closeAt, Concurrent2: c.conc2, MaxSteps: 2500, Idle: 30 * time.Second, MaxIdle: 25, Final: final}
+	plan := &zzc14.Plan{Gate: gate, CloseAt: c.closeAt, CloseOp1: c.closeOp1, CloseDelay: c.closeDelay, Concurrent2: c.conc2, MaxSteps: 2500, Idle: 30 * time.Second, MaxIdle: 25, Final: final}
 	base := zzc14.PickBy(c.strat, r.Intn)
 	plan.Pick = func(step int, pend []*zzc14.Call) int {
 		i := base(step, pend)
@@ -279,6 +281,9 @@ func c14provGen(r *vfRand, i int) *c14provCase {
 		c.closeAt = r.Intn(6 + 10*len(c.ops))
 	}
 	c.conc2 = r.Chance(30)
+	if len(c.ops) > 0 && r.Chance(55) {
+		c.closeOp1, c.closeDelay = 1+r.Intn(len(c.ops)), 1+r.Intn(4)
+	}
 	return c
 }
 
@@ -288,7 +293,7 @@ func TestVerifC14Provider(t *testing.T) {
 	zzc14.StartClock()
 	seed := vfSeed()
 	n := vfEnvInt("VERIF_N", 100)
-	only := vfOnly()
+	only := zzc14.Only(4, vfOnly())
 	cs := vfNewCases("Run_C14", 50)
 	curDesc := map[string]any{}
 	zzc14.OnHang(func(label, stacks string) {
@@ -299,13 +304,13 @@ func TestVerifC14Provider(t *testing.T) {
 	root := vfNewRand(seed)
 	for i := 0; i < n; i++ {
 		r := root.Fork()
-		if only >= 0 && i != only {
+		if only != -1 && i != only {
 			continue
 		}
 		c := c14provGen(r, i)
-		desc := map[string]any{"case": i, "seed": seed, "pkg": "provider", "comp": "provider", "ctor": c.ctor, "interval_h": c.interval.Hours(), "ownKeystore": c.ownKs,
+		desc := map[string]any{"case": zzc14.CaseID(4, i), "seed": seed, "pkg": "provider", "comp": "provider", "ctor": c.ctor, "interval_h": c.interval.Hours(), "ownKeystore": c.ownKs,
 			"ownDatastore": c.ownDs, "npeers": c.npeers, "K": c.k, "failPct": c.failPct, "workers": c.workers, "noAddrs": c.noAddrs, "warm": c.warmSteps,
-			"ops": c.ops, "closeAt": c.closeAt, "concurrent2": c.conc2, "strategy": c.strat}
+			"ops": c.ops, "closeAt": c.closeAt, "closeOp1": c.closeOp1, "closeDelay": c.closeDelay, "concurrent2": c.conc2, "strategy": c.strat}
 		curDesc = desc
 		tr := &zzc14.Trace{}
 		var plan *zzc14.Plan
